@@ -324,3 +324,51 @@ def retry_case(case):
             obs["expiry_boundary_cases"] = 1
     obs["api_commands_classified"] = 1
     return viol, obs
+
+
+# ------------------------------------------------------------ model-fed world
+
+class ModelWorld(ApiWorld):
+    """ApiWorld + reference model fed with exactly the bytes delivered to the client."""
+
+    def __init__(self, gen, loop, net, log, inst=None, knobs=None):
+        super().__init__(gen, loop, net, log, inst, knobs)
+        from .refmodel import RefModel
+        self.model = RefModel(gen)
+        self._fed = 0
+        self._bufs = {}
+
+    def feed(self):
+        """Apply frames delivered since the last call; returns the change list."""
+        changes = []
+        ev = self.log.events
+        while self._fed < len(ev):
+            seq, t, kind, d = ev[self._fed]
+            self._fed += 1
+            if kind == "NET.deliver":
+                buf = self._bufs.setdefault(d["conn"], bytearray())
+                buf += d["data"]
+                frames, rest, err = R.parse_stream(self.gen, bytes(buf))
+                if err:
+                    buf.clear()
+                    continue
+                del buf[:len(buf) - len(rest)]
+                for f in frames:
+                    if f.crc_ok:
+                        changes += [(seq,) + c for c in self.model.apply(f.typ, f.data, f.to)]
+        return changes
+
+    async def init_and_sync(self):
+        ok = await self.init()
+        await quiesce(self.loop)
+        self.feed()
+        self.model.connected()
+        return ok
+
+    async def inject(self, raw):
+        c = self.net.current()
+        if c is None:
+            return False
+        self.console.send(c, raw)
+        await quiesce(self.loop)
+        return True
